@@ -214,6 +214,9 @@ def r09_2(rep, M, rid):
     def atoms(e, at):
         if isinstance(e, ast.Name) and fl.rd[at].get(e.id) == frozenset([fl.cfg.entry]) and e.id == thr:
             return "threshold"
+        if isinstance(e, ast.Name) and not fl.rd[at].get(e.id):
+            # not a local: a module-level constant cannot follow the caller's threshold / radii setting
+            return f"module-level `{e.id}`"
         # max of the radii
         inner = None
         if isinstance(e, ast.Call) and isinstance(e.func, ast.Attribute) and e.func.attr == "max" and not e.args:
